@@ -19,7 +19,7 @@ FINDINGS = {}
 def _run(fn, cfg, sizes, seed):
     """one evaluation; a failure inside the region of a recorded known finding is not a new violation"""
     r = rtc.run_one(fn, cfg, sizes, seed)
-    if r['ok'] is False and known.in_known({'fn': fn, 'cfg': cfg, 'sizes': sizes}, FINDINGS):
+    if r['ok'] is False and known.in_known({'fn': fn, 'cfg': cfg, 'sizes': sizes, 'eff': r.get('eff', {})}, FINDINGS):
         return {'ok': True, 'detail': 'inside a known-finding region: ' + r['detail'][:100]}
     return r
 
